@@ -19,6 +19,7 @@ FUNCTIONS = [
     'hephaestus.stop_condition',
     'hephaestus._run',
     'hephaestus.run.process_res',
+    'hephaestus.run_parallel.process_res.update',
 ]
 TRUSTED = [
     'external contracts (assumed): os.path.join / str(pid) give pairwise distinct paths Saved(pid), Tmp(pid) (injective, '
